@@ -38,6 +38,18 @@ def cases(rng, tier):
                     c = rng.choice(free)
                     cs.append({"kind": "matrix", "n": n, "e": ("dgr", ("c", c, g))})
                     cs.append({"kind": "matrix", "n": n, "e": ("mul", ("c", c, g), ("dgr", ("c", c, g)))})
+    # the gates that accept several-bit masks, on masks of four and more bits (counts that are not reduced mod 4 / mod 8)
+    for n in (5, 6):
+        for kind in gen.NOPARAM1:
+            ms = [m for m in range(1 << n) if bin(m).count("1") >= 4]
+            for m in (rng.sample(ms, 2) + [(1 << n) - 1] if tier == "quick" else ms):
+                g = (kind, m)
+                cs.append({"kind": "matrix", "n": n, "e": ("dgr", g)})
+                cs.append({"kind": "matrix", "n": n, "e": (rng.choice(["mul", "mulassign", "pushfront"]), g, ("dgr", g))})
+                free = [c for c in range(1, 1 << n) if not c & m]
+                if free:
+                    c = rng.choice(free)
+                    cs.append({"kind": "matrix", "n": n, "e": ("mul", ("dgr", ("c", c, g)), ("c", c, g))})
     # angle sweep for the rotation daggers
     for kind in gen.PARAM1 + gen.PARAM2:
         m = 0b10 if kind in gen.PARAM1 else 0b101
